@@ -1541,8 +1541,17 @@ pub fn run(out: &str, seed: u64, thorough: bool, _side: &str) {
         let mut dumps: BTreeSet<String> = BTreeSet::new();
         let mut first_fail: Option<(Vec<usize>, Vec<Fail>)> = None;
         let mut nfailed = 0;
-        for o in &orders {
+        for (oi, o) in orders.iter().enumerate() {
             k.stat("load_orders");
+            // the same loads through the world protocol (the Lean model of parser + merge answers them too); quick tier: the
+            // first four orders of a master
+            if thorough || oi < 4 {
+                k.stat("load_orders_sent_to_the_model");
+                let docs: Vec<(String, String)> = o.iter().map(|f| (Case::fname(*f), prep.texts[*f].clone())).collect();
+                for (r, a) in crate::world::merge_lines(&docs) {
+                    k.put(&r, &a, false);
+                }
+            }
             let r = catch_unwind(AssertUnwindSafe(|| check_union(&case, &prep.texts, o, &prep.alone, &prep.sorted_master)));
             let (fails, d) = r.unwrap_or_else(|_| (vec![Fail { class: "panic", msg: "panic".into() }], String::new()));
             dumps.insert(d);
